@@ -97,7 +97,7 @@ def run(ctx):
     from vf import model
     from vf.props import c11
     model.check_analysis()
-    for idx in ctx.cases(quick=50, thorough=400):
+    for idx in ctx.cases(quick=110, thorough=450):
         rng = ctx.rng(idx)
         ctx.reseed_global(idx)
         h = model.gen_history(rng, ndocs=(5, 70) if rng.random() < 0.6 else (60, 200), boosts=True, maxlen=8, burst=rng.choice([0.0, 0.05, 0.15]))
